@@ -77,6 +77,26 @@ pub fn main(args: &[String]) -> i32 {
             }).unwrap_or(false);
             if ok { println!("parses"); 0 } else { println!("rejects"); 1 }
         }
+        Some("readall") => {
+            // open `archive` (rle-hex text in a file) with the Rust reader and compare every `namehex=datarle` of `expfile`
+            let arch_text = std::fs::read_to_string(&args[1]).unwrap_or_default();
+            let bytes = crate::c18_wdt::unrle(arch_text.trim());
+            let tmp = tempfile::NamedTempFile::new().expect("tmp");
+            std::fs::write(tmp.path(), &bytes).ok();
+            let mut a = match Archive::open(tmp.path()) { Ok(a) => a, Err(e) => { println!("FAIL open: {e}"); return 1; } };
+            let mut bad = 0;
+            for item in std::fs::read_to_string(&args[2]).unwrap_or_default().split_whitespace() {
+                let (n, d) = item.split_once('=').unwrap_or(("", "-"));
+                let name = String::from_utf8(crate::common::unhex(n)).unwrap_or_default();
+                let want = crate::c18_wdt::unrle(d);
+                for sp in [name.clone(), name.to_uppercase(), name.replace('\\', "/")] {
+                    match a.read_file(&sp) { Ok(g) if g == want => {}, Ok(g) => { println!("FAIL {sp}: {} bytes differ (want {})", g.len(), want.len()); bad += 1; }
+                        Err(e) => { let es = e.to_string(); if es.contains("Compression bomb") { println!("BOMB {sp}"); } else { println!("FAIL {sp}: {es}"); bad += 1; } } }
+                }
+            }
+            if matches!(a.find_file("never\\added.txt"), Ok(None)) {} else { println!("FAIL never-added name resolves"); bad += 1; }
+            if bad == 0 { println!("ok"); 0 } else { 1 }
+        }
         Some("remove") => {
             // preparation step for compact (not traced): remove one file and flush, leaving reclaimable space
             let dest = &args[1];
